@@ -13,7 +13,7 @@ import oracle_meas as OM
 import oracle_np as O
 import stab_common as S
 
-G1 = ["X", "Y", "Z", "H", "K"]
+G1 = ["X", "Y", "Z", "H", "K", "S"]
 G2 = {"CNOT": ("apply_CNOT", "ECNOT", "CNOT"), "CPHASE": ("apply_CPHASE", "ECPHASE", "CZ")}
 UNSUP = {"T": "UT", "rotation": "URot", "onequbit": "UOne", "twoqubit": "UTwo", "replace": "UReplace"}
 NMAX_ORACLE = 7
@@ -424,6 +424,67 @@ def gen_program(rng, length, scenario=None):
     return prog[:max(length, 1)] if scenario is None else prog
 
 
+def structured_programs(rng, thorough):
+    """wide entangled registers under layers of one-qubit gates (row products with large +-i imbalance during the elimination inside measure /
+    remove) and Y-rich pairs going through two-qubit gates: states random short programs almost never reach"""
+    out = []
+    for n in ((4, 5, 6, 7) if thorough else (4, 6)):
+        for layers in (["S", "H"], ["K"], ["S"], ["H", "S", "H"]):
+            prog = [{"op": "new", "max": n}] + [{"op": "add_fresh", "i": 0} for _ in range(n)]
+            order = list(range(1, n))
+            rng.shuffle(order)
+            # encoding circuits of the same GHZ state with different stored generators: parity CNOTs onto qubit 1 first (they act trivially on
+            # |0..0> but change which generators are stored), then H(0) and the fan-out
+            for j in order[:rng.randrange(0, n - 1)]:
+                if j != 1:
+                    prog.append({"op": "gate2", "i": 0, "g": "CNOT", "q1": j, "q2": 1})
+            prog.append({"op": "gate1", "i": 0, "g": "H", "q": 0})
+            for j in order:
+                prog.append({"op": "gate2", "i": 0, "g": "CNOT", "q1": 0, "q2": j})
+            for g in layers:
+                for q in range(n):
+                    prog.append({"op": "gate1", "i": 0, "g": g, "q": q})
+            mode = rng.choice(["measure", "remove", "meas_inplace"])
+            live = n
+            for q in range(n):
+                if mode == "meas_inplace":
+                    prog.append({"op": "meas_inplace", "i": 0, "q": q, "coin": rng.randrange(2)})
+                else:
+                    prog.append({"op": mode, "i": 0, "q": rng.randrange(live), "coin": rng.randrange(2)})
+                    live -= 1
+            out.append(("structured-wide", prog))
+    for n in (4, 5, 6):
+        prog = [{"op": "new", "max": n}] + [{"op": "add_fresh", "i": 0} for _ in range(n)]
+        prog += [{"op": "gate2", "i": 0, "g": "CNOT", "q1": j, "q2": 1} for j in range(n - 1, 1, -1)]
+        prog += [{"op": "gate1", "i": 0, "g": "H", "q": 0}] + [{"op": "gate2", "i": 0, "g": "CNOT", "q1": 0, "q2": j} for j in range(n - 1, 0, -1)]
+        prog += [{"op": "gate1", "i": 0, "g": "S", "q": q} for q in range(n)] + [{"op": "gate1", "i": 0, "g": "H", "q": q} for q in range(n)]
+        prog += [{"op": "measure", "i": 0, "q": 0, "coin": c} for c in ([1, 0, 1, 1, 0, 1][:n])]
+        out.append(("structured-wide", prog))
+    for g2 in ("CNOT", "CPHASE"):
+        for first in (["H"], ["K"], ["H", "K"]):
+            prog = [{"op": "new", "max": 3}, {"op": "add_fresh", "i": 0}, {"op": "add_fresh", "i": 0}]
+            prog += [{"op": "gate1", "i": 0, "g": g, "q": 0} for g in first]
+            prog += [{"op": "gate2", "i": 0, "g": "CNOT", "q1": 0, "q2": 1}, {"op": "gate1", "i": 0, "g": "K", "q": 0}, {"op": "gate1", "i": 0, "g": "K", "q": 1},
+                     {"op": "gate1", "i": 0, "g": "K", "q": 0}, {"op": "gate1", "i": 0, "g": "K", "q": 1},
+                     {"op": "gate2", "i": 0, "g": g2, "q1": 0, "q2": 1}, {"op": "gate2", "i": 0, "g": g2, "q1": 1, "q2": 0},
+                     {"op": "meas_inplace", "i": 0, "q": 0, "coin": 1}, {"op": "measure", "i": 0, "q": 1, "coin": 0}, {"op": "measure", "i": 0, "q": 0, "coin": 1}]
+            out.append(("structured-yy", prog))
+    for tail in ([("H", 0)], [("S", 0), ("H", 1)], []):
+        prog = [{"op": "new", "max": 2}, {"op": "add_fresh", "i": 0}, {"op": "add_fresh", "i": 0},
+                {"op": "gate2", "i": 0, "g": "CNOT", "q1": 0, "q2": 1}, {"op": "gate1", "i": 0, "g": "H", "q": 0}, {"op": "gate1", "i": 0, "g": "H", "q": 1},
+                {"op": "gate2", "i": 0, "g": "CPHASE", "q1": 1, "q2": 0}, {"op": "gate2", "i": 0, "g": "CNOT", "q1": 0, "q2": 1}]
+        prog += [{"op": "gate1", "i": 0, "g": g, "q": q} for g, q in tail]
+        prog += [{"op": "measure", "i": 0, "q": 0, "coin": 1}, {"op": "measure", "i": 0, "q": 0, "coin": 1}]
+        out.append(("structured-yy", prog))
+        prog2 = [{"op": "new", "max": 2}, {"op": "add_fresh", "i": 0}, {"op": "add_fresh", "i": 0}, {"op": "gate1", "i": 0, "g": "H", "q": 0},
+                 {"op": "gate2", "i": 0, "g": "CNOT", "q1": 0, "q2": 1}, {"op": "gate1", "i": 0, "g": "S", "q": 0}, {"op": "gate1", "i": 0, "g": "S", "q": 1},
+                 {"op": "gate2", "i": 0, "g": "CNOT", "q1": 0, "q2": 1}]
+        prog2 += [{"op": "gate1", "i": 0, "g": g, "q": q} for g, q in tail]
+        prog2 += [{"op": "meas_inplace", "i": 0, "q": 0, "coin": 0}, {"op": "measure", "i": 0, "q": 1, "coin": 1}, {"op": "measure", "i": 0, "q": 0, "coin": 0}]
+        out.append(("structured-yy", prog2))
+    return out
+
+
 D18_WITNESS = [{"op": "new", "max": 1}, {"op": "add_fresh", "i": 0}, {"op": "add_qubit", "i": 0, "data": [[False, True, False]]}]
 
 
@@ -481,6 +542,7 @@ def run(ctx):
     for sc in ("absorb_empty", "absorb_nonempty", "export_empty", "export_nonempty"):
         for _ in range(nscen):
             progs.append((sc, gen_program(rng, rng.randrange(12, 21), sc)[:20]))
+    progs += structured_programs(rng, thorough)
     for _ in range(3000 if thorough else 400):
         progs.append(("random", gen_program(rng, rng.randrange(3, 21))))
 
